@@ -20,6 +20,7 @@ import (
 	"io"
 	"os"
 	"path"
+	"sort"
 	"strconv"
 	"strings"
 	"sync"
@@ -406,7 +407,14 @@ func (store *fileStore) IterateMessages(beginSeqNum, endSeqNum int, cb func([]by
 		return fmt.Errorf("unable to seek to start of file: %s: %s", store.headerFname, err.Error())
 	}
 
-	// Iterate over the header file
+	// Read the whole index. It is not always in ascending order: a number saved again (after a crash between
+	// the save and the counter update, after a crash in the middle of a reset, or after the counter was set
+	// back) has a second line further down, and the line written last is the one that counts.
+	type indexEntry struct {
+		offset int64
+		size   int
+	}
+	latest := make(map[int]indexEntry)
 	for {
 		var seqNum, size int
 		var offset int64
@@ -415,16 +423,23 @@ func (store *fileStore) IterateMessages(beginSeqNum, endSeqNum int, cb func([]by
 				break
 			}
 			return fmt.Errorf("unable to read from file: %s: %s", store.headerFname, err.Error())
-		} else if cnt < 3 || seqNum > endSeqNum {
-			// If we have reached the end of possible iteration then break
+		} else if cnt < 3 {
 			break
-		} else if seqNum < beginSeqNum {
-			// If we have not yet reached the starting sequence number then continue
+		}
+		if seqNum < beginSeqNum || seqNum > endSeqNum {
 			continue
 		}
-		// Otherwise process the file
-		msg := make([]byte, size)
-		if _, err := bodyFile.ReadAt(msg, offset); err != nil {
+		latest[seqNum] = indexEntry{offset, size}
+	}
+	seqNums := make([]int, 0, len(latest))
+	for seqNum := range latest {
+		seqNums = append(seqNums, seqNum)
+	}
+	sort.Ints(seqNums)
+
+	for _, seqNum := range seqNums {
+		msg := make([]byte, latest[seqNum].size)
+		if _, err := bodyFile.ReadAt(msg, latest[seqNum].offset); err != nil {
 			return fmt.Errorf("unable to read from file: %s: %s", store.bodyFname, err.Error())
 		} else if err = cb(msg); err != nil {
 			return err
